@@ -374,3 +374,158 @@ func zzH_c03_point_pairs() {
 	}
 	vReach("end")
 }
+
+// H03-reduce-degree-edges: the Montgomery reduction sm2P256ReduceDegree on inputs directed at
+// its limb guards: for every eliminated limb position e (0..8) the limb is 0, 1, 2, its
+// maximum or maximum-1 while the limbs above it sit on, just below or just above the borrow
+// thresholds 2^28 / 2^29 (all lower limbs zero, so the chosen value is what the guard sees);
+// the result must be b * R^-1 mod p (R = 2^257) as an integer identity against math/big.
+//
+//verif:property C03
+//verif:expect-reach end
+//verif:bound 9 positions x 7 limb values x 8 fillings of the higher limbs (zero, maximal, threshold, threshold-1, threshold+1, one, alternating, a fixed pattern); bounded concrete execution of the real reduction
+//verif:outside other inputs of the reduction (symbolic limb-level lemmas were unknown in every solver, DESIGN.md section 9)
+//verif:unwind 3000
+func zzH_c03_reduce_degree_edges() {
+	P256Sm2()
+	e := vChoice("pos", 9)
+	width := func(j int) uint { // bits of limb j in the 29/28 radix
+		if j&1 == 0 {
+			return 29
+		}
+		return 28
+	}
+	pos := func(j int) uint {
+		p := uint(0)
+		for k := 0; k < j; k++ {
+			p += width(k)
+		}
+		return p
+	}
+	rinv2 := new(big.Int).Mul(sm2P256.RInverse, sm2P256.RInverse)
+	for xi := 0; xi < 7; xi++ {
+		max := uint64(1)<<width(e) - 1
+		x := []uint64{0, 1, 2, 3, max - 1, max, uint64(1) << (width(e) - 1)}[xi]
+		for fill := 0; fill < 8; fill++ {
+			var b sm2P256LargeFieldElement
+			val := new(big.Int)
+			for j := e; j < 17; j++ {
+				var t uint64
+				thr := uint64(1) << (width(j) - 1) // 2^28 for 29-bit limbs, 2^27 for 28-bit ones
+				switch {
+				case j == e:
+					t = x
+				case fill == 0:
+					t = 0
+				case fill == 1:
+					t = uint64(1)<<width(j) - 1
+				case fill == 2:
+					t = thr
+				case fill == 3:
+					t = thr - 1
+				case fill == 4:
+					t = thr + 1
+				case fill == 5:
+					t = 1
+				case fill == 6:
+					t = (uint64(1)<<width(j) - 1) * uint64(j&1)
+				default:
+					t = (0x0123457*uint64(j+1) + 0x1000000*uint64(j)) & (uint64(1)<<width(j) - 1)
+				}
+				b[j] = t
+				val.Add(val, new(big.Int).Lsh(new(big.Int).SetUint64(t), pos(j)))
+			}
+			var a sm2P256FieldElement
+			sm2P256ReduceDegree(&a, &b)
+			for j := 0; j < 9; j++ {
+				vAssert("result-limb-in-range", uint64(a[j]) < uint64(1)<<width(j))
+			}
+			want := new(big.Int).Mul(val, rinv2)
+			want.Mod(want, sm2P256.P)
+			vAssert("reduce-degree-eq-montgomery-reduction", sm2P256ToBig(&a).Cmp(want) == 0)
+		}
+	}
+	vReach("end")
+}
+
+func zzLimbVal(l []uint32) *big.Int {
+	v, p := new(big.Int), uint(0)
+	for j, x := range l {
+		v.Add(v, new(big.Int).Lsh(new(big.Int).SetUint64(uint64(x)), p))
+		if j&1 == 0 {
+			p += 29
+		} else {
+			p += 28
+		}
+	}
+	return v
+}
+
+// H03-tables: the constant tables of the field and comb code against their definitions: every
+// one of the 2 x 15 precomputed affine points equals the stated combination of multiples of G
+// (entry k of table t = sum over set bits b of k of 2^(64 b + 32 t) G), the carry and factor
+// rows are c * 2^257 mod p, the subtraction offset is 0 mod p, and the constant-time table
+// selection returns exactly entry k for every index.
+//
+//verif:property C03
+//verif:expect-reach end
+//verif:bound all 30 comb table entries, all 16 indices of sm2P256SelectAffinePoint on both tables, 8 carry rows, 9 factor rows, sm2P256Zero31; bounded concrete execution against math/big
+//verif:outside nothing within the tables; their use is the subject of the other C03 harnesses
+//verif:unwind 3000
+func zzH_c03_tables() {
+	P256Sm2()
+	p := sm2P256.P
+	part := vChoice("part", 4)
+	if part < 2 {
+		t := part
+		for k := 1; k < 16; k++ {
+			s := new(big.Int)
+			for b := 0; b < 4; b++ {
+				if k>>uint(b)&1 == 1 {
+					s.Add(s, new(big.Int).Lsh(big.NewInt(1), uint(64*b+32*t)))
+				}
+			}
+			wx, wy := zzRefMul(s)
+			var ex, ey sm2P256FieldElement
+			off := t*30*9 + (k-1)*18
+			copy(ex[:], sm2P256Precomputed[off:off+9])
+			copy(ey[:], sm2P256Precomputed[off+9:off+18])
+			vAssert("comb-table-entry-eq-multiple-of-G", sm2P256ToBig(&ex).Cmp(wx) == 0 && sm2P256ToBig(&ey).Cmp(wy) == 0)
+			var sx, sy sm2P256FieldElement
+			sm2P256SelectAffinePoint(&sx, &sy, sm2P256Precomputed[t*30*9:], uint32(k))
+			vAssert("select-returns-entry-k", sx == ex && sy == ey)
+		}
+		var sx, sy sm2P256FieldElement
+		sm2P256SelectAffinePoint(&sx, &sy, sm2P256Precomputed[t*30*9:], 0)
+		vAssert("select-zero-returns-zero", sx == sm2P256FieldElement{} && sy == sm2P256FieldElement{})
+		vReach("end")
+		return
+	}
+	if part == 2 {
+		r := new(big.Int).Lsh(big.NewInt(1), 257)
+		for c := 0; c < 8; c++ {
+			want := new(big.Int).Mul(big.NewInt(int64(c)), r)
+			want.Mod(want, p)
+			row := sm2P256Carry[c*9 : c*9+9]
+			used := []uint32{row[0], 0, row[2], row[3], 0, 0, 0, row[7], 0}
+			got := new(big.Int).Mod(zzLimbVal(used), p)
+			vAssert("carry-row-eq-c-times-2^257", got.Cmp(want) == 0)
+		}
+		for a := 0; a < len(sm2P256Factor); a++ {
+			f := sm2P256Factor[a]
+			vAssert("factor-row-is-a-in-montgomery-form", sm2P256ToBig(&f).Cmp(big.NewInt(int64(a))) == 0)
+		}
+		vReach("end")
+		return
+	}
+	z := sm2P256Zero31
+	vAssert("subtraction-offset-is-zero-mod-p", new(big.Int).Mod(zzLimbVal(z[:]), p).Sign() == 0)
+	for j := range z {
+		w := uint(29)
+		if j&1 == 1 {
+			w = 28
+		}
+		vAssert("subtraction-offset-dominates-a-limb", uint64(z[j]) >= uint64(1)<<w)
+	}
+	vReach("end")
+}
